@@ -151,7 +151,8 @@ def natPairs : P (List (Nat × Nat)) := do
     join(S, pf, pf), toPartialFactors -/
 def misc2 : P String := do
   let l ← pairs; let r ← pairs; let bigS ← P.nat; let full ← P.nats; P.bar
-  let mk ← P.nats; let mm ← natPairs; let mv ← P.nats; let jk ← P.nats; let jv ← P.nats; let tk ← P.nats; let tv ← P.nats; P.eof
+  let mk ← P.nats; let mm ← natPairs; let mv ← P.nats; let jk ← P.nats; let jv ← P.nats; let tk ← P.nats; let tv ← P.nats
+  let mtm ← P.bool; let mt4 ← P.bool; P.eof
   let lk := l.map (·.1); let rk := r.map (·.1)
   let v : Verdict := { tag := "misc2" }
   let mp := mergePF l r
@@ -165,6 +166,10 @@ def misc2 : P String := do
   let v := v.failIf (!(mk.zip mv).all (fun kv => some kv.2 == (match lookup kv.1 r with | some x => some x | none => lookup kv.1 l))) s!"merge(PartialValues) wrong_values {mv}"
   let v := v.failIf (jk != lk ++ rk.map (· + bigS) || jv != l.map (·.2) ++ r.map (·.2)) s!"join(S,PartialFactors) wrong_join {jk}"
   let v := v.failIf (tk != List.range full.length || tv != full) s!"toPartialFactors wrong {tk}"
+  let agree := (lk ++ rk).all (fun k => match lookup k l, lookup k r with | some a, some b => a == b | _, _ => true)
+  let v := v.diffIf (matchPF l r != mt4) s!"match(keys,values,keys,values) model={matchPF l r} impl={mt4}"
+  let v := v.failIf (mtm != agree) s!"match(matches,Factors,Factors) wrong_answer {mtm}"
+  let v := v.failIf (mt4 != agree) s!"match(keys,values,keys,values) wrong_answer {mt4}"
   return v.render
 
 def handle (toks : List String) : String :=
